@@ -43,6 +43,12 @@ CLAIMED = {
  "C18": dict(cat="model_checking", design="§4 C18", technique="TLA+ spec LiteBlock.tla (merkle tree, aligned-subtree placeholders, projection, root recomputation) checked exhaustively by TLC for n<=9/11; every (n, key pattern) replayed on real generate_lite_block + wire round trip + real merkle recomputation; LiteBlockTrace.tla",
    text="TLC proves on the model, for every transaction count up to the bound and every key pattern, that the reference projection tiles the block with kept transactions and aligned complete subtrees and that the root recomputed from the lite items equals the full root (and that a misaligned placeholder is rejected). The same cases are executed on the real code: real signed blocks, generate_lite_block, serialisation, deserialisation, generate() and the real merkle recomputation; the monitor checks tiling/alignment, leaf hashes after the wire trip, presence of every touching transaction, identity of id/hash/signature/header and recomputability of the commitment.",
    note="exhaustive for n<=9 (quick) / n<=11 (thorough) incl. variants; random patterns up to 64 transactions; merging strategy left free"),
+ "C09": dict(cat="translation_validation", design="§4 C09", technique="TLA+ reference layouts (Wire.tla) evaluated by TLC on the fields of every generated value and compared with the real encoder's bytes; MC_Wire self-check of the layouts",
+   text="Wire.tla is an independent description of every wire record (slip, hop, transaction, block full/header, every peer message tag, handshake, chain requests, ghost-chain sync, API messages, key lists, version, ticket). For every generated value (all enum variants, 0/1/254/255 slips, empty and 64 KiB payloads, 0..8 hops, boundary integers, distinct non-zero fields) TLC computes the reference encoding from the struct fields and compares it with the bytes of the real encoder; the re-decoded fields, the predicted size, re-encoding, hash and signature verdict across the wire are compared as well.",
+   note="differential against a reference codec over generated values, not a proof; disk/wallet/snapshot formats only through their wire forms (see DESIGN §5)"),
+ "C10": dict(cat="exploration", design="§4 C10", technique="systematic mutation of valid encodings (every truncation, boundary values in every count field, bit flips) + random strings fed to every decoder under catch_unwind with an allocation meter; outcome alphabet and allocation bound checked by WireTrace.tla",
+   text="Every decoder reachable from peer or disk bytes is called on every truncation of valid encodings of every format and message tag, on encodings whose count/length fields are set to boundary values, on single-bit corruptions and on random strings; a panic or a peak allocation above 16*len+4096 bytes is a violation (the process being killed counts too).",
+   note="exploration: systematic + random, exhaustive only over truncation points of the seed encodings"),
 }
 
 def main():
